@@ -51,7 +51,40 @@ var c28Types = []string{gen.TOpen2, gen.TOpen3, gen.TEditions, gen.THybrid, gen.
 	// proto3 with `optional` fields (synthetic oneofs) in the hybrid and opaque flavors
 	"opaque.goproto.proto.test3.TestAllTypes", "opaque.goproto.proto.test3.TestAllTypes", "hybrid.goproto.proto.test3.TestAllTypes",
 	// opaque fixture with presence-tracked fields declared after oneofs (pbsim/fx)
-	"pbsim.fx.AfterOneof", "pbsim.fx.AfterOneof"}
+	"pbsim.fx.AfterOneof", "pbsim.fx.AfterOneof",
+	// other shapes of numbering and nesting: a oneof in the middle of sparse field numbers, small proto2 /
+	// proto3 / editions messages of the text-format test schemas (groups, requireds, proto3 optional)
+	"goproto.proto.order.Message", "goproto.proto.order.Message", "pb2.Scalars", "pb2.Nests", "pb2.Requireds", "pb2.IndirectRequired", "pb2.Maps", "pb2.Repeats",
+	"pb3.Scalars", "pb3.Proto3Optional", "pb3.Oneofs", "pb3.Maps", "pb3.Nests", "pbeditions.Scalars", "pbeditions.ImplicitScalars", "pbeditions.Nests", "pbeditions.Requireds",
+	// the conformance messages: a oneof with NullValue / wrapper members, well-known-type fields (their
+	// JSON forms constrain values, so the JSON and text round trips are left out for them, see c28TextUnsafe)
+	"protobuf_test_messages.proto3.TestAllTypesProto3", "protobuf_test_messages.editions.proto3.TestAllTypesProto3"}
+
+// (the proto2 conformance message is left out: it holds a MessageSet, which needs the protolegacy build tag to marshal)
+
+// c28TextUnsafe: the message (two levels deep) has fields of well-known types whose JSON form accepts only
+// some values (Duration, Timestamp, FieldMask, Any, Value, ...): a random history makes protojson.Marshal
+// fail legitimately.
+func c28TextUnsafe(md protoreflect.MessageDescriptor, depth int) bool {
+	fds := md.Fields()
+	for i := 0; i < fds.Len(); i++ {
+		fd := fds.Get(i)
+		mm := fd.Message()
+		if fd.IsMap() {
+			mm = fd.MapValue().Message()
+		}
+		if mm == nil {
+			continue
+		}
+		if strings.HasPrefix(string(mm.FullName()), "google.protobuf.") {
+			return true
+		}
+		if depth > 0 && mm != md && c28TextUnsafe(mm, depth-1) {
+			return true
+		}
+	}
+	return false
+}
 
 // c28Required stands for one of the single-field messages of internal/testprotos/required (all flavors), chosen by the scenario.
 const c28Required = "required/*"
@@ -897,6 +930,9 @@ func (p *c28Pair) mutate(op *scn.Op, newMsg func() proto.Message) string {
 			return "oneof: binary input naming several members of one oneof was rejected: " + err.Error()
 		}
 	case "roundtrip-bin", "roundtrip-json", "roundtrip-text":
+		if op.Op != "roundtrip-bin" && c28TextUnsafe(p.m.ProtoReflect().Descriptor(), 1) {
+			return ""
+		}
 		fresh := newMsg()
 		var err error
 		switch op.Op {
@@ -976,14 +1012,35 @@ func (p *c28Pair) mutate(op *scn.Op, newMsg func() proto.Message) string {
 			return ""
 		}
 		od := md.Oneofs().Get(int(op.N) % md.Oneofs().Len())
+		// members whose value can be written down in both text codecs: scalars, enums (google.protobuf.NullValue
+		// is written null in JSON, where null is that member's value and does select it), plain messages,
+		// google.protobuf.Value (null as well)
+		litOK := func(f protoreflect.FieldDescriptor) bool {
+			switch f.Kind() {
+			case protoreflect.GroupKind:
+				return false
+			case protoreflect.MessageKind:
+				n := string(f.Message().FullName())
+				return !strings.HasPrefix(n, "google.protobuf.") || n == "google.protobuf.Value"
+			}
+			return true
+		}
 		var scal []protoreflect.FieldDescriptor
 		for i := 0; i < od.Fields().Len(); i++ {
-			if f := od.Fields().Get(i); f.Kind() == protoreflect.Uint32Kind || f.Kind() == protoreflect.StringKind || f.Kind() == protoreflect.BoolKind || f.Kind() == protoreflect.Uint64Kind {
+			if f := od.Fields().Get(i); litOK(f) {
 				scal = append(scal, f)
 			}
 		}
 		if len(scal) < 2 || od.IsSynthetic() {
 			return ""
+		}
+		shuffle(r, scal)
+		// members that are written null come first in the choice half of the time: that is the special case
+		for i, f := range scal {
+			if (f.Enum() != nil && f.Enum().FullName() == "google.protobuf.NullValue" || f.Message() != nil && f.Message().FullName() == "google.protobuf.Value") && r.Bool() {
+				scal[0], scal[i] = scal[i], scal[0]
+				break
+			}
 		}
 		a, b := scal[0], scal[1]
 		if r.Bool() {
@@ -993,8 +1050,32 @@ func (p *c28Pair) mutate(op *scn.Op, newMsg func() proto.Message) string {
 			switch fd.Kind() {
 			case protoreflect.StringKind:
 				return `"x"`
+			case protoreflect.BytesKind:
+				if json {
+					return `"eA=="`
+				}
+				return `"x"`
 			case protoreflect.BoolKind:
 				return "true"
+			case protoreflect.FloatKind, protoreflect.DoubleKind:
+				return "1.5"
+			case protoreflect.EnumKind:
+				if fd.Enum().FullName() == "google.protobuf.NullValue" {
+					if json {
+						return "null"
+					}
+					return "NULL_VALUE"
+				}
+				v := fd.Enum().Values().Get(fd.Enum().Values().Len() - 1)
+				if json {
+					return `"` + string(v.Name()) + `"`
+				}
+				return string(v.Name())
+			case protoreflect.MessageKind:
+				if json && fd.Message().FullName() == "google.protobuf.Value" {
+					return "null"
+				}
+				return "{}"
 			}
 			return "7"
 		}
